@@ -4,7 +4,7 @@
    every other path is unchanged.  Used by set_item_name and by set_character_data on a SHORT-NAME element. *)
 From AV Require Import Base.Bytes Base.Outcome Hash.HashModel Tree.Heap Tree.Ops Tree.Script Tree.IndexProofsW
   Tree.Index Tree.IndexProofsBase Tree.IndexProofsAssoc Tree.IndexProofsFrame Tree.IndexProofsAttach
-  Tree.IndexProofsTree Tree.IndexProofsNamed Tree.FollowProofsPath.
+  Tree.IndexProofsTree Tree.IndexProofsNamed Tree.Follow Tree.FollowProofsPath.
 Open Scope string_scope.
 Open Scope list_scope.
 Open Scope N_scope.
@@ -36,7 +36,8 @@ Lemma upath_ab m l pa :
   upath T wa m l pa ->
   exists pb, upath T wb m l pb /\
     ((~ uchain l /\ pb = pa) \/
-     (uchain l /\ exists pre suf, pa = pre ++ seg T wa h ++ suf /\ pb = pre ++ seg T wb h ++ suf)).
+     (uchain l /\ exists pre suf, upath T wa m (PElem h) (pre ++ seg T wa h) /\
+                                  pa = pre ++ seg T wa h ++ suf /\ pb = pre ++ seg T wb h ++ suf)).
 Proof.
   induction 1 as [|i n q Hn Hu IH].
   - exists []. split; [constructor|]. left. split; [intros Hc; inversion Hc|reflexivity].
@@ -47,14 +48,305 @@ Proof.
     rewrite (seg_of wa i n Hn), (seg_of wb i nb Enb).
     destruct (N.eq_dec i h) as [->|Hne].
     + right. split; [constructor|]. destruct Hcase as [(_ & ->)|(Hc & _)].
-      * exists q, []. rewrite !app_nil_r. auto.
+      * exists q, []. rewrite !app_nil_r. split; [|auto]. rewrite <- (seg_of wa h n Hn). econstructor; eauto.
       * exfalso. eapply Hacyc; eauto.
-    + rewrite (Hseg i Hne). destruct Hcase as [(Hnc & ->)|(Hc & pre & suf & -> & ->)].
+    + rewrite (Hseg i Hne). destruct Hcase as [(Hnc & ->)|(Hc & pre & suf & Hup & -> & ->)].
       * left. split; [|reflexivity]. intros Hc. inversion Hc; subst; [contradiction|].
         rewrite Hn in H0. injection H0 as <-. contradiction.
       * right. split; [econstructor; eauto|]. exists pre, (suf ++ seg T wa i). rewrite <- !app_assoc. auto.
 Qed.
 
 End TwoWorlds.
+
+(* the chain relation is the subtree relation; a node is not above its own parent *)
+Lemma uchain_reach w h l : TreeFacts w -> uchain w h l -> forall i, l = PElem i -> reach T w h i.
+Proof.
+  intros HF Hu. induction Hu as [|i n Hn Hu IH]; intros j [= <-]; [apply reach_refl|].
+  destruct (n_parent n) as [|mm|p] eqn:Ep; try (inversion Hu; fail).
+  eapply reach_step; [apply IH; reflexivity|]. eapply tf_down; eauto.
+Qed.
+Lemma reach_uchain w h i : TreeFacts w -> reach T w h i -> uchain w h (PElem i).
+Proof.
+  intros HF (q & Hd). induction Hd as [|p c q Hp IH Hc]; [constructor|].
+  destruct (tf_up _ HF _ _ Hc) as (cn & Hcn & Hpar). econstructor; [exact Hcn|]. rewrite Hpar. exact IH.
+Qed.
+Lemma uchain_acyclic w h n : TreeFacts w -> w_nodes w h = Some n -> ~ uchain w h (n_parent n).
+Proof.
+  intros HF Hn Hu. destruct (n_parent n) as [|mm|p] eqn:Ep; try (inversion Hu; fail).
+  pose proof (uchain_reach w h _ HF Hu p eq_refl) as (q & Hd).
+  eapply (not_below_self T w p h q); eauto. eapply tf_down; eauto.
+Qed.
+
+(* ---------- the concrete situation: the text of the SHORT-NAME s of h changes from cur to nn *)
+Section One.
+Variables (w w2 : world) (h s : id) (n sn : node) (rest : list citem) (m : N) (x : model)
+          (cur nn pre : list N) (IDS2 : list (list N * id)).
+Hypothesis HF : TreeFacts w.
+Hypothesis HI : Inv04 w.
+Hypothesis Hn : w_nodes w h = Some n.
+Hypothesis Hc : n_content n = CElem s :: rest.
+Hypothesis Hnamed : named T (n_type n) = true.
+Hypothesis Hs : w_nodes w s = Some sn.
+Hypothesis Hsn : n_name sn = SHORTN.
+Hypothesis Hcd : cdata_of T sn = Some (DString cur).
+Let sn2 := set_content sn [CData (DString nn)].
+Hypothesis Hnodes : forall j, w_nodes w2 j = if j =? s then Some sn2 else w_nodes w j.
+Hypothesis Hnext : w_next w2 = w_next w.
+Hypothesis Hnn : ~ In 47 nn.
+Hypothesis Hreach : MReach T w m h.
+Let old := pre ++ 47 :: cur.
+Let new := pre ++ 47 :: nn.
+Hypothesis Hold : SpecPath T w m h old.
+Hypothesis Hx : model_at w m = Some x.
+Hypothesis Hmodels : w_models w2 = list_set (w_models w) (N.to_nat m) (set_idents x IDS2).
+Hypothesis Hids_nd : NoDupKeys IDS2.
+Hypothesis Hids : forall k2 e, assoc_get k2 IDS2 = Some e <->
+     (exists k, rekey old new k = Some k2 /\ assoc_get k (m_idents x) = Some e)
+     \/ (rekey old new k2 = None /\ assoc_get k2 (m_idents x) = Some e).
+
+Lemma one_hs : h <> s.
+Proof.
+  intros E. subst s. eapply (not_below_self T w h h []); eauto; [|constructor]. exists n. rewrite Hc. split; [exact Hn|left; reflexivity].
+Qed.
+Lemma one_child : child_of w h s.
+Proof. exists n. rewrite Hc. split; [exact Hn|left; reflexivity]. Qed.
+
+Lemma one_mode : content_mode T (n_type sn) = Val MCharacters.
+Proof. destruct (i4_short _ _ _ HI _ _ Hs Hsn) as (H & _). exact H. Qed.
+
+Lemma one_sn2_cd : cdata_of T sn2 = Some (DString nn).
+Proof. unfold cdata_of, character_data, sn2. cbn. rewrite one_mode. reflexivity. Qed.
+
+Lemma one_s_leaf : elem_ids (n_content sn) = [].
+Proof. apply chars_content_elems. eapply (i4_leaf _ _ _ HI); eauto. apply one_mode. Qed.
+
+(* structure *)
+Lemma one_se : SE w w2.
+Proof.
+  split; [|split; [exact Hnext|]].
+  - intros j. rewrite Hnodes. destruct (j =? s) eqn:E; [|reflexivity]. apply N.eqb_eq in E. subst j. rewrite Hs. cbn.
+    unfold sview, sn2. cbn. rewrite one_s_leaf. reflexivity.
+  - rewrite Hmodels. clear -Hx. unfold model_at in Hx. revert Hx. generalize (N.to_nat m). generalize (w_models w).
+    induction l as [|y l IH]; intros [|k] H; cbn in *; try discriminate; auto.
+    + injection H as ->. reflexivity.
+    + f_equal. auto.
+Qed.
+Lemma one_tf2 : TreeFacts w2.
+Proof. eapply TreeFacts_se; [apply one_se|exact HF]. Qed.
+
+Lemma one_child_of p c : child_of w2 p c <-> child_of w p c.
+Proof. split; [apply se_child; apply SE_sym; apply one_se|apply se_child; apply one_se]. Qed.
+
+Lemma no_elems_short_child w0 nd : elem_ids (n_content nd) = [] -> short_child T w0 nd = None.
+Proof. unfold short_child. destruct (n_content nd) as [|[c|d] r]; try reflexivity. discriminate. Qed.
+
+(* readings *)
+Lemma one_short_child j nj : w_nodes w j = Some nj -> j <> s ->
+  short_child T w2 nj = (if j =? h then Some sn2 else short_child T w nj).
+Proof.
+  intros Hj Hjs. rewrite !short_child_hd. destruct (N.eq_dec j h) as [->|Hjh].
+  - rewrite N.eqb_refl. rewrite Hn in Hj. injection Hj as <-. rewrite Hc. cbn [hd_error]. rewrite Hnodes, N.eqb_refl.
+    unfold sn2. cbn [set_content n_name]. rewrite Hsn, N.eqb_refl. reflexivity.
+  - apply N.eqb_neq in Hjh as Hb. rewrite Hb. destruct (hd_error (n_content nj)) as [[c|d]|] eqn:Eh; try reflexivity.
+    assert (Hcj : child_of w j c).
+    { exists nj. split; [exact Hj|]. destruct (n_content nj); cbn in Eh; [discriminate|]. injection Eh as ->. left. reflexivity. }
+    assert (c <> s).
+    { intros ->. apply Hjh. destruct (tf_up _ HF _ _ Hcj) as (c1 & H1 & P1). destruct (tf_up _ HF _ _ one_child) as (c2 & H2 & P2). congruence. }
+    rewrite Hnodes. apply N.eqb_neq in H. rewrite H. reflexivity.
+Qed.
+
+Lemma one_item_name_h : item_name_n T w n = Some cur /\ item_name_n T w2 n = Some nn.
+Proof.
+  assert (Hsc : short_child T w n = Some sn).
+  { unfold short_child. rewrite Hc, Hs, Hsn, N.eqb_refl. reflexivity. }
+  assert (Hsc2 : short_child T w2 n = Some sn2).
+  { rewrite (one_short_child h n Hn one_hs), N.eqb_refl. reflexivity. }
+  unfold item_name_n. rewrite Hnamed, Hsc, Hsc2, Hcd, one_sn2_cd. auto.
+Qed.
+
+Lemma one_seg_h : seg T w h = 47 :: cur /\ seg T w2 h = 47 :: nn.
+Proof.
+  destruct one_item_name_h as (H1 & H2). unfold seg. rewrite Hn.
+  assert (w_nodes w2 h = Some n). { rewrite Hnodes. pose proof one_hs as Hne. apply N.eqb_neq in Hne. rewrite Hne. exact Hn. }
+  rewrite H. unfold seg_n. rewrite H1, H2. auto.
+Qed.
+
+Lemma one_readings j : j <> h ->
+  seg T w2 j = seg T w j.
+Proof.
+  intros Hjh. unfold seg. rewrite Hnodes. destruct (j =? s) eqn:Ejs.
+  - apply N.eqb_eq in Ejs. subst j. rewrite Hs. unfold seg_n, item_name_n.
+    rewrite (no_elems_short_child w sn one_s_leaf), (no_elems_short_child w2 sn2 eq_refl). reflexivity.
+  - apply N.eqb_neq in Ejs. destruct (w_nodes w j) as [nj|] eqn:Ej; [|reflexivity].
+    unfold seg_n, item_name_n. rewrite (one_short_child j nj Ej Ejs). apply N.eqb_neq in Hjh. rewrite Hjh. reflexivity.
+Qed.
+
+Lemma one_identifiable j : identifiable T w2 j = identifiable T w j.
+Proof.
+  unfold identifiable. rewrite Hnodes. destruct (j =? s) eqn:Ejs.
+  - apply N.eqb_eq in Ejs. subst j. rewrite Hs. unfold identifiable_n.
+    rewrite (no_elems_short_child w sn one_s_leaf), (no_elems_short_child w2 sn2 eq_refl). reflexivity.
+  - apply N.eqb_neq in Ejs. destruct (w_nodes w j) as [nj|] eqn:Ej; [|reflexivity].
+    unfold identifiable_n. rewrite (one_short_child j nj Ej Ejs). destruct (j =? h) eqn:Ejh; [|reflexivity].
+    apply N.eqb_eq in Ejh. subst j. rewrite Hn in Ej. injection Ej as <-. unfold short_child. rewrite Hc, Hs, Hsn, N.eqb_refl. reflexivity.
+Qed.
+
+(* ---------- paths *)
+Lemma one_par j : option_map n_parent (w_nodes w2 j) = option_map n_parent (w_nodes w j).
+Proof. rewrite Hnodes. destruct (j =? s) eqn:E; [|reflexivity]. apply N.eqb_eq in E. subst j. rewrite Hs. reflexivity. Qed.
+Lemma one_par' j : option_map n_parent (w_nodes w j) = option_map n_parent (w_nodes w2 j).
+Proof. symmetry. apply one_par. Qed.
+Lemma one_seg' j : j <> h -> seg T w j = seg T w2 j.
+Proof. intros H. symmetry. apply one_readings. exact H. Qed.
+
+Lemma one_uchain l : uchain w h l <-> uchain w2 h l.
+Proof.
+  split; intros Hu; induction Hu as [|i n0 Hn0 Hu IH]; try constructor.
+  - pose proof (one_par i) as Hp. rewrite Hn0 in Hp. destruct (w_nodes w2 i) as [n2|] eqn:E; [|discriminate]. cbn in Hp.
+    injection Hp as Hp. econstructor; [exact E|]. rewrite Hp. exact IH.
+  - pose proof (one_par i) as Hp. rewrite Hn0 in Hp. destruct (w_nodes w i) as [n1|] eqn:E; [|discriminate]. cbn in Hp.
+    injection Hp as Hp. econstructor; [exact E|]. rewrite <- Hp. exact IH.
+Qed.
+
+Lemma one_old_upath : upath T w m (PElem h) old.
+Proof. eapply specpath_upath; eauto. Qed.
+
+(* the path of an element after the change *)
+Lemma one_specpath_fwd m2 j p :
+  SpecPath T w m2 j p ->
+  (~ reach T w h j /\ SpecPath T w2 m2 j p) \/
+  (reach T w h j /\ m2 = m /\ exists suf, p = old ++ suf /\ SpecPath T w2 m2 j (new ++ suf)).
+Proof.
+  intros Hsp. pose proof (specpath_upath T _ _ _ _ HF Hsp) as Hu.
+  destruct (upath_ab w w2 h one_par one_readings (fun n0 H0 => uchain_acyclic w h n0 HF H0) m2 _ _ Hu)
+    as (pb & Hub & [(Hnc & ->)|(Hch & pre' & suf & Huh & -> & ->)]).
+  - left. split; [intros Hr; apply Hnc; apply reach_uchain; assumption|]. eapply upath_specpath; [apply one_tf2|exact Hub].
+  - right. split; [eapply uchain_reach; eauto|].
+    destruct (upath_fun T _ _ _ _ one_old_upath _ _ Huh) as (-> & Heq). split; [reflexivity|].
+    destruct one_seg_h as (S1 & S2). rewrite S1 in Heq. unfold old in Heq.
+    assert (pre' = pre). { apply (app_inv_tail (47 :: cur)). exact Heq. } subst pre'.
+    exists suf. rewrite S1. split; [unfold old; rewrite <- app_assoc; reflexivity|].
+    eapply upath_specpath; [apply one_tf2|]. unfold new. rewrite <- app_assoc. rewrite <- S2. exact Hub.
+Qed.
+
+Lemma one_new_upath : upath T w2 m (PElem h) new.
+Proof.
+  destruct (one_specpath_fwd m h old Hold) as [(Hn0 & _)|(_ & _ & suf & He & Hs2)].
+  - exfalso. apply Hn0. apply reach_refl.
+  - unfold old in He. rewrite <- (app_nil_r (pre ++ 47 :: cur)) in He at 1. apply app_inv_head in He. subst suf.
+    rewrite app_nil_r in Hs2. eapply specpath_upath; [apply one_tf2|exact Hs2].
+Qed.
+
+Lemma one_specpath_bwd m2 j p2 :
+  SpecPath T w2 m2 j p2 ->
+  (~ reach T w h j /\ SpecPath T w m2 j p2) \/
+  (reach T w h j /\ m2 = m /\ exists suf, p2 = new ++ suf /\ SpecPath T w m2 j (old ++ suf)).
+Proof.
+  intros Hsp. pose proof (specpath_upath T _ _ _ _ one_tf2 Hsp) as Hu.
+  assert (Hn2 : w_nodes w2 h = Some n).
+  { rewrite Hnodes. pose proof one_hs as Hne. apply N.eqb_neq in Hne. rewrite Hne. exact Hn. }
+  destruct (upath_ab w2 w h one_par' one_seg' (fun n0 H0 => uchain_acyclic w2 h n0 one_tf2 H0) m2 _ _ Hu)
+    as (pb & Hub & [(Hnc & ->)|(Hch & pre' & suf & Huh & -> & ->)]).
+  - left. split; [intros Hr; apply Hnc; apply one_uchain; apply reach_uchain; assumption|]. eapply upath_specpath; eauto.
+  - right. split; [eapply uchain_reach; [exact HF|apply one_uchain; exact Hch|reflexivity]|].
+    destruct (upath_fun T _ _ _ _ one_new_upath _ _ Huh) as (-> & Heq). split; [reflexivity|].
+    destruct one_seg_h as (S1 & S2). rewrite S2 in Heq. unfold new in Heq.
+    assert (pre' = pre). { apply (app_inv_tail (47 :: nn)). exact Heq. } subst pre'.
+    exists suf. rewrite S2. split; [unfold new; rewrite <- app_assoc; reflexivity|].
+    eapply upath_specpath; [exact HF|]. unfold old. rewrite <- app_assoc. rewrite <- S1. exact Hub.
+Qed.
+
+(* ---------- the invariant *)
+Lemma one_old_ne : old <> [].
+Proof. unfold old. destruct pre; discriminate. Qed.
+
+Lemma one_h_key : assoc_get old (m_idents x) = Some h.
+Proof.
+  apply (i4_exact _ _ _ HI m x Hx). split; [exact Hreach|]. split; [|exact Hold].
+  unfold identifiable. rewrite Hn. unfold identifiable_n, short_child. rewrite Hnamed, Hc, Hs, Hsn, N.eqb_refl. reflexivity.
+Qed.
+
+Lemma one_old_form_reach k j : old_form old k -> assoc_get k (m_idents x) = Some j -> reach T w h j.
+Proof.
+  intros Hof Hk. eapply (old_form_below T w m x h old k j); eauto.
+  - apply slashfree_names. apply (i4_slash _ _ _ HI).
+  - exact (i4_exact _ _ _ HI m).
+  - apply one_old_ne.
+  - apply one_h_key.
+Qed.
+
+Lemma rekey_old_form k k' : rekey old new k = Some k' -> old_form old k.
+Proof. intros H. apply rekey_some in H as (suf & -> & Hb & _). exists suf. auto. Qed.
+Lemma old_form_rekey' k : old_form old k -> exists suf, k = old ++ suf /\ rekey old new k = Some (new ++ suf).
+Proof. intros (suf & -> & Hb). exists suf. split; [reflexivity|]. apply rekey_some. exists suf. auto. Qed.
+
+Lemma one_mreach m2 j : MReach T w2 m2 j <-> MReach T w m2 j.
+Proof.
+  split.
+  - intros (y & Hy & Hr). destruct (se_model _ _ _ _ (SE_sym _ _ one_se) Hy) as (y0 & Hy0 & Hroot).
+    exists y0. split; [exact Hy0|]. rewrite Hroot. eapply se_reach; [apply SE_sym; apply one_se|exact Hr].
+  - intros (y & Hy & Hr). destruct (se_model _ _ _ _ one_se Hy) as (y0 & Hy0 & Hroot).
+    exists y0. split; [exact Hy0|]. rewrite Hroot. eapply se_reach; [apply one_se|exact Hr].
+Qed.
+
+Lemma one_pathset_other m2 p j : m2 <> m -> (PathSet T w2 m2 p j <-> PathSet T w m2 p j).
+Proof.
+  intros Hne. unfold PathSet. rewrite one_mreach, one_identifiable. split.
+  - intros (H1 & H2 & H3). split; [exact H1|]. split; [exact H2|].
+    destruct (one_specpath_bwd _ _ _ H3) as [(_ & H)|(_ & E & _)]; [exact H|contradiction].
+  - intros (H1 & H2 & H3). split; [exact H1|]. split; [exact H2|].
+    destruct (one_specpath_fwd _ _ _ H3) as [(_ & H)|(_ & E & _)]; [exact H|contradiction].
+Qed.
+
+Theorem one_inv04 : Inv04 w2.
+Proof.
+  pose proof HI as [I1 I2 I3 IL I4 I5].
+  assert (Hnode : forall j nj2, w_nodes w2 j = Some nj2 -> (j = s /\ nj2 = sn2) \/ (j <> s /\ w_nodes w j = Some nj2)).
+  { intros j nj2 Hj. rewrite Hnodes in Hj. destruct (j =? s) eqn:E.
+    - apply N.eqb_eq in E. injection Hj as <-. auto.
+    - apply N.eqb_neq in E. auto. }
+  constructor.
+  - intros j nj2 Hj Hs2. destruct (Hnode j nj2 Hj) as [(-> & ->)|(Hjs & Hj0)]; [cbn; eapply I1; eauto|eapply I1; eauto].
+  - intros j nj2 s0 Hj Hs2 Hcd2. destruct (Hnode j nj2 Hj) as [(-> & ->)|(Hjs & Hj0)].
+    + rewrite one_sn2_cd in Hcd2. injection Hcd2 as <-. exact Hnn.
+    + eapply I2; eauto.
+  - intros j nj2 Hj Hid. destruct (Hnode j nj2 Hj) as [(-> & ->)|(Hjs & Hj0)].
+    + unfold identifiable_n in Hid. rewrite (no_elems_short_child w2 sn2 eq_refl), andb_false_r in Hid. discriminate.
+    + destruct (N.eq_dec j h) as [->|Hjh].
+      * rewrite Hn in Hj0. injection Hj0 as <-. destruct one_item_name_h as (_ & ->). discriminate.
+      * unfold item_name_n. unfold identifiable_n in Hid. rewrite (one_short_child j nj2 Hj0 Hjs) in *.
+        apply N.eqb_neq in Hjh. rewrite Hjh in *. apply (I3 j nj2 Hj0). exact Hid.
+  - intros j nj2 Hj Hm. destruct (Hnode j nj2 Hj) as [(-> & ->)|(Hjs & Hj0)]; [right; eexists; reflexivity|eapply IL; eauto].
+  - (* IndexExact *)
+    intros m2 y Hy p2 j. destruct (N.eq_dec m2 m) as [->|Hne].
+    2:{ rewrite (model_at_set_other _ _ _ _ _ Hmodels Hne) in Hy. rewrite (one_pathset_other m2 p2 j Hne). apply (I4 m2 y Hy). }
+    rewrite (model_at_set_same _ _ _ _ Hmodels _ Hx) in Hy. injection Hy as <-. cbn [set_idents m_idents]. rewrite Hids. split.
+    + intros [(k & Hr & Hk)|(Hr & Hk)].
+      * pose proof (proj1 (I4 m x Hx k j) Hk) as (P1 & P2 & P3).
+        pose proof (one_old_form_reach k j (rekey_old_form _ _ Hr) Hk) as Hb.
+        apply rekey_some in Hr as (suf & -> & Hbd & ->).
+        destruct (one_specpath_fwd m j _ P3) as [(Hnb & _)|(_ & _ & suf2 & He & Hs2)]; [contradiction|].
+        apply app_inv_head in He. subst suf2.
+        split; [apply one_mreach; exact P1|]. split; [rewrite one_identifiable; exact P2|exact Hs2].
+      * pose proof (proj1 (I4 m x Hx p2 j) Hk) as (P1 & P2 & P3).
+        destruct (one_specpath_fwd m j _ P3) as [(Hnb & Hs2)|(Hb & _ & suf2 & He & _)].
+        -- split; [apply one_mreach; exact P1|]. split; [rewrite one_identifiable; exact P2|exact Hs2].
+        -- exfalso. assert (Hof : old_form old p2).
+           { eapply (below_old_form T w m h j old p2); eauto. }
+           destruct (old_form_rekey' _ Hof) as (suf & _ & Hr2). congruence.
+    + intros (P1 & P2 & P3). apply one_mreach in P1. rewrite one_identifiable in P2.
+      destruct (one_specpath_bwd m j _ P3) as [(Hnb & Hs1)|(Hb & _ & suf & -> & Hs1)].
+      * right. assert (Hk : assoc_get p2 (m_idents x) = Some j) by (apply (I4 m x Hx); split; [exact P1|split; assumption]).
+        split; [|exact Hk]. destruct (rekey old new p2) as [k'|] eqn:Er; [|reflexivity]. exfalso. apply Hnb.
+        eapply one_old_form_reach; [eapply rekey_old_form; eauto|exact Hk].
+      * left. exists (old ++ suf). split; [|apply (I4 m x Hx); split; [exact P1|split; assumption]].
+        assert (Hof : old_form old (old ++ suf)) by (eapply (below_old_form T w m h j old); eauto).
+        destruct (old_form_rekey' _ Hof) as (suf2 & He & Hr2). apply app_inv_head in He. subst suf2. exact Hr2.
+  - intros m2 y Hy. destruct (N.eq_dec m2 m) as [->|Hne].
+    + rewrite (model_at_set_same _ _ _ _ Hmodels _ Hx) in Hy. injection Hy as <-. exact Hids_nd.
+    + rewrite (model_at_set_other _ _ _ _ _ Hmodels Hne) in Hy. apply (I5 m2 y Hy).
+Qed.
+
+End One.
 
 End Ren.
